@@ -233,6 +233,48 @@ the bytes the code file receives for the line, in address order -/
 def fileBytes (turnWords : Bool) (listGran : Nat) (code : List UInt8) : List UInt8 :=
   if turnWords then Drehe.dreheCodes listGran code.length code else code
 
+/-! ## `WriteBytes` and the line buffer `MakeList` reads afterwards
+
+`as.c`: `WriteCode()` (→ `WriteBytes()`) runs before `MakeList()`; both work on the same overlay
+`BAsmCode/WAsmCode/DAsmCode`.  `WriteBytes` turns the buffer into file order, hands `ErgLen` bytes to
+`CodeBuffer` or the file in one of three ways (append to the buffer; flush and start the buffer anew; flush and
+write through when the statement alone is as large as the buffer) and turns the buffer back.  The record
+structure of the file (`NewRecord` at 0xffff, headers) is C04's `Model/CodeFile.lean`; here only the data
+bytes of the open record count: `disk` = what `fwrite` received, `buf` = `CodeBuffer[0 .. CodeBufferFill)`. -/
+
+/-- `#define CodeBufferSize 512` (asmcode.c) -/
+def codeBufferSize : Nat := 512
+
+structure Store where
+  disk : List UInt8
+  buf : List UInt8
+deriving Repr, DecidableEq, Inhabited
+
+/-- `FlushBuffer` -/
+def flushStore (s : Store) : Store := ⟨s.disk ++ s.buf, []⟩
+
+/-- `asmcode.c WriteBytes` (little-endian host) on the line buffer `BAsmCode[0 .. ErgLen)`:
+`if (TurnWords) DreheCodes();` – buffer / flush + buffer / flush + write through – `LenSoFar += ErgLen;`
+`if (TurnWords) DreheCodes();`.  Result: the store, and the line buffer as `MakeList` finds it. -/
+def writeBytesLine (tw : Bool) (lg : Nat) (s : Store) (code : List UInt8) : Store × List UInt8 :=
+  if code.length = 0 then (s, code) else
+  let c1 := if tw then Drehe.dreheCodes lg code.length code else code
+  let s1 :=
+    if s.buf.length + c1.length < codeBufferSize then { s with buf := s.buf ++ c1 }
+    else
+      let f := flushStore s
+      if c1.length < codeBufferSize then { f with buf := c1 } else { f with disk := f.disk ++ c1 }
+  let c2 := if tw then Drehe.dreheCodes lg c1.length c1 else c1
+  (s1, c2)
+
+/-- a sequence of statements of one record: the store at the end and the line buffers `MakeList` saw -/
+def writeBytesSeq (tw : Bool) (lg : Nat) : Store → List (List UInt8) → Store × List (List UInt8)
+  | s, [] => (s, [])
+  | s, c :: cs =>
+    let r := writeBytesLine tw lg s c
+    let rs := writeBytesSeq tw lg r.1 cs
+    (rs.1, r.2 :: rs.2)
+
 /-! ## MAP -/
 
 /-- `HexString(buf, addr, 8)` -/
